@@ -162,7 +162,7 @@ def namesTail (basis : List (List Char)) (s : Int) : Py.M (Int × Py.Dict (List 
   let vecs := basis.filterMap (fun eJ => if (Py.len eJ == (2 : Int)) = true then some (Py.sliceFrom eJ 1) else none)
   let st ← (if Py.truthy vecs = true then do
       let m ← Py.minStr vecs
-      Py.intOfStr m
+      Py.intOfHex m
     else pure s)
   let items ← basis.mapM (fun eJ => do
     let xs ← (Py.sliceFrom eJ 1).mapM (fun v =>
@@ -258,9 +258,9 @@ theorem hexChar_beq (a b : Nat) (ha : a < 16) (hb : b < 16) : (hexChar a == hexC
 theorem hexStr_ofNat (n : Nat) (h : n < 16) : Py.hexStr (Int.ofNat n) = [hexChar n] := by
   rcases hexChar_cases n h with h|h|h|h|h|h|h|h|h|h|h|h|h|h|h|h <;> subst h <;> rfl
 
-theorem intOfStr_hexChar (v : Nat) (h : v < 10) : Py.intOfStr [hexChar v] = .ok (Int.ofNat v) := by
-  have : v = 0 ∨ v = 1 ∨ v = 2 ∨ v = 3 ∨ v = 4 ∨ v = 5 ∨ v = 6 ∨ v = 7 ∨ v = 8 ∨ v = 9 := by omega
-  rcases this with h|h|h|h|h|h|h|h|h|h <;> subst h <;> rfl
+/-- `int(c, base=16)` of a single hex digit (`'0'..'9'`, `'a'..'f'`) is its value -/
+theorem intOfHex_hexChar (v : Nat) (h : v < 16) : Py.intOfHex [hexChar v] = .ok (Int.ofNat v) := by
+  rcases hexChar_cases v h with h|h|h|h|h|h|h|h|h|h|h|h|h|h|h|h <;> subst h <;> rfl
 
 theorem listLt_map_hexChar : ∀ (a b : List Nat), (∀ x ∈ a, x < 16) → (∀ x ∈ b, x < 16) →
     Py.listLt (a.map hexChar) (b.map hexChar) = Cfg.lexLt a b := by
@@ -665,13 +665,12 @@ theorem foldl_xor_cast (c : Cfg) (n : List Nat) (a : Nat) :
   | nil => rfl
   | cons x n ih => rw [List.map_cons, List.foldl_cons, List.foldl_cons, xor_ofNat, ih]
 
-/-- **custom basis**: for an admissible custom configuration whose generator labels are decimal digits, the python accepts
+/-- **custom basis**: for an admissible custom configuration (its generator labels are single hex digits), the python accepts
     the basis (none of its asserts fires), derives the model's start index (and leaves `start_index` alone when there is no
     basis vector, d = 0), and builds `canon2bin` with the model's bitmasks in the order of the given basis, and a
     `bin2canon` that maps every bitmask to its name -/
 theorem post_init_custom_eq (sig : List Int) (basis : List (List Nat)) (start0 : Int)
-    (h : (Cfg.custom sig basis).admissible = true) (hne : basis ≠ [])
-    (hdec : ∀ v ∈ (Cfg.custom sig basis).vecs, v < 10) :
+    (h : (Cfg.custom sig basis).admissible = true) (hne : basis ≠ []) :
     ∃ b2c, Src.post_init_names (basis.map pyName) (Int.ofNat sig.length) start0 =
         .ok (if (Cfg.custom sig basis).vecs = [] then start0 else Int.ofNat (Cfg.custom sig basis).start,
              basis.map (fun n => (pyName n, Int.ofNat ((Cfg.custom sig basis).binOf n))), b2c) ∧
@@ -689,10 +688,10 @@ theorem post_init_custom_eq (sig : List Int) (basis : List (List Nat)) (start0 :
     unfold Cfg.admissible at h'
     simp only [Bool.and_eq_true, decide_eq_true_eq] at h'
     exact h'.1.2
-  have h16 : ∀ v ∈ (Cfg.custom sig basis).vecs, v < 16 := fun v hv => by have := hdec v hv; omega
+  have h16 : ∀ v ∈ (Cfg.custom sig basis).vecs, v < 16 := vecs16_of_admissible _ h
   have hstart : (Cfg.custom sig basis).start =
       (Cfg.custom sig basis).vecs.foldl min ((Cfg.custom sig basis).vecs.headD 0) := rfl
-  have hstart10 : (Cfg.custom sig basis).vecs ≠ [] → (Cfg.custom sig basis).start < 10 := by
+  have hstart16 : (Cfg.custom sig basis).vecs ≠ [] → (Cfg.custom sig basis).start < 16 := by
     intro hVne
     rw [hstart]
     have h1 := foldl_min_le (Cfg.custom sig basis).vecs ((Cfg.custom sig basis).vecs.headD 0)
@@ -700,7 +699,7 @@ theorem post_init_custom_eq (sig : List Int) (basis : List (List Nat)) (start0 :
       cases hv : (Cfg.custom sig basis).vecs with
       | nil => exact absurd hv hVne
       | cons a l => simp
-    have := hdec _ h2
+    have := h16 _ h2
     omega
   have hb16 : ∀ n ∈ basis, ∀ l ∈ n, l < 16 := fun n hn l hl => h16 l (hadm.names_letters n hn l hl)
   have hvp : (basis.map pyName).filterMap
@@ -742,7 +741,7 @@ theorem post_init_custom_eq (sig : List Int) (basis : List (List Nat)) (start0 :
       simp only [ht, if_true]
       rw [minStr_vecs _ hV h16, ← hstart]
       simp only [ok_bind]
-      rw [intOfStr_hexChar _ (hstart10 hV)]
+      rw [intOfHex_hexChar _ (hstart16 hV)]
       rfl
   have hbnd : basis.Nodup := List.Nodup.of_map _ hbin
   have hfk : ((basis.map f).map (·.1)).Nodup := by
